@@ -8,7 +8,7 @@ INFO = ("YPos (TLA+ reference: position table by counting breaks and characters,
         "marked-node spans) is an invariant (PosTrue) of MC_Pipeline on every text <= N over 10 alphabets (the model computes marks the way the scanner does; replay binds it to the code), "
         "and Trace_Pos judges in TLC the spans, errors, printed errors and MarkedYaml/MarkedYamlOwned node spans the real code produced for every pool text (<= 160 characters), both back-ends.",
         "NUL ends the input for the scanner: positions are judged against the input up to the first NUL. The synthesized null scalar '~' is exempt from the exact-span rule. "
-        "Marked-node spans are judged on inputs without aliases and duplicate keys (one node per node event).",
+        "Marked-node spans are judged against the tree the events denote (an alias node carries the Alias event's span, its children the anchored node's); inputs with a duplicated key (a node is dropped) are not judged for that clause.",
         "TLA+ invariant in exhaustive model checking + TLC trace validation of recorded spans", "7/C12")
 
 
@@ -40,16 +40,18 @@ def selftest():
     d = os.path.join(WORK, "selftest")
     os.makedirs(d, exist_ok=True)
     t = list("a: b\n")
-    ev = lambda k, a, b, v="", st="": {"k": k, "a": a, "b": b, "v": list(v), "style": st}
+    ev = lambda k, a, b, v="", st="": {"k": k, "a": a, "b": b, "v": list(v), "style": st, "aid": 0}
     evs = [ev("StreamStart", [0, 1, 0], [0, 1, 0]), ev("DocumentStart", [0, 1, 0], [0, 1, 0]), ev("MappingStart", [0, 1, 0], [0, 1, 0]), ev("Scalar", [0, 1, 0], [1, 1, 1], "a", "plain"),
            ev("Scalar", [3, 1, 3], [4, 1, 4], "b", "plain"), ev("MappingEnd", [5, 2, 0], [5, 2, 0]), ev("DocumentEnd", [5, 2, 0], [5, 2, 0]), ev("StreamEnd", [5, 2, 0], [5, 2, 0])]
     good = {"k": "POS", "t": t, "be": "x", "evs": evs, "err": [], "marked": []}
     bad1 = json.loads(json.dumps(good)); bad1["evs"][4]["a"] = [3, 1, 2]      # wrong column
     bad2 = json.loads(json.dumps(good)); bad2["evs"][4]["b"] = [5, 1, 5]      # span does not cover exactly the text
     bad3 = json.loads(json.dumps(good)); bad3["err"] = [{"at": [3, 1, 3], "words": "x at byte 3 line 1 column 3".split()}]  # 0-based column printed
-    write_ndjson(os.path.join(d, "pos.ndjson"), [good, bad1, bad2, bad3])
+    good["marked"] = [[[e["a"], e["b"]] for e in evs if e["k"] in ("Scalar", "MappingStart")]]
+    bad4 = json.loads(json.dumps(good)); bad4["marked"][0][1] = [[0, 1, 0], [0, 1, 0]]     # a marked node with another node's span
+    write_ndjson(os.path.join(d, "pos.ndjson"), [good, bad1, bad2, bad3, bad4])
     r = tlc("Trace_Pos", workers=1, env={"TRACE": os.path.join(d, "pos.ndjson")}, name="selftest_pos")
-    if sorted(x[0] for x in r.rejects) != [2, 3, 4]:
+    if sorted(x[0] for x in r.rejects) != [2, 3, 4, 5]:
         print("SELFTEST FAILED: Trace_Pos rejects", r.rejects)
         return 2
     return 0
